@@ -453,6 +453,20 @@ fn write_replay(check: &Check, f: &Found, seed: u64, tier: &str) -> Result<(Stri
     Ok((path, v))
 }
 
+pub fn run_single(check: &Check, bi: usize, run: u64, seed: u64) -> i32 {
+    let batch = &check.batches[bi];
+    let rec = run_one(batch, Tape::generate(seed ^ stream_id(check.prop, bi), run), true);
+    for l in rec.trace.iter().rev().take(60).rev() {
+        out_line(l);
+    }
+    out_line(&format!("harness_panic={:?}", rec.harness_panic));
+    for v in &rec.out.violations {
+        out_line(&format!("violation {} {} {}", v.prop, v.rule, v.detail));
+    }
+    out_line(&format!("sample={}", rec.out.sample.map(|s| s.to_string()).unwrap_or_default()));
+    0
+}
+
 pub fn out_line(s: &str) {
     crate::stdout_line(s);
 }
